@@ -472,4 +472,53 @@ theorem withinOne_of (v bits cs co ds d0 : Nat) (q : Q) (hp : phys bits cs co ds
       push_cast; linarith [h.2]
     exact_mod_cast this
 
+/-- converting a value into the unit it already has is the identity: `((v/S − O) + O)·S = v` -/
+theorem exactValue_same (v s o T : Nat) (h : exactValue v s o s o = some T) : T = v := by
+  unfold exactValue at h
+  cases hp : phys v s o s o with
+  | none => simp [hp] at h
+  | some q =>
+    simp only [hp] at h
+    -- the scale is not zero
+    have hS : ∃ qs, Q.ofF64 s = some qs ∧ qs.num ≠ 0 := by
+      unfold phys at hp
+      cases h1 : Q.ofF64 s with
+      | none => simp [h1] at hp
+      | some qs =>
+        refine ⟨qs, rfl, ?_⟩
+        intro hz
+        cases h2 : Q.ofF64 o with
+        | none => simp [h1, h2] at hp
+        | some qo => simp [h1, h2, hz] at hp
+    obtain ⟨qs, hqs, hnum⟩ := hS
+    obtain ⟨hdqs, fqs⟩ := ofF64_spec s qs hqs
+    obtain ⟨hden, CS, CO, DS, DO, f1, f2, f3, f4, hq⟩ := phys_spec v s o s o q hp
+    have e1 := isFin_unique _ _ _ f1 f3
+    have e2 := isFin_unique _ _ _ f2 f4
+    have e3 := isFin_unique _ _ _ f1 fqs
+    subst e1 e2
+    have hCS : CS ≠ 0 := by
+      rw [e3, toRat]
+      have : (qs.num : ℚ) ≠ 0 := by exact_mod_cast hnum
+      have : (qs.den : ℚ) ≠ 0 := by exact_mod_cast hdqs
+      positivity
+    have hval : toRat q = v := by rw [hq]; field_simp; ring
+    by_cases hc : q.isInt = true ∧ 0 ≤ q.floor ∧ q.floor < 2 ^ 32
+    · simp only [hc, and_self, if_true, Option.some.injEq] at h
+      obtain ⟨hint, h0, _⟩ := hc
+      unfold Q.isInt at hint
+      simp only [Bool.and_eq_true, bne_iff_ne, ne_eq, beq_iff_eq] at hint
+      have hdq : (q.den : ℚ) ≠ 0 := by exact_mod_cast hden
+      have hdiv : q.num = (q.den : Int) * q.floor := by
+        unfold Q.floor
+        have := Int.emod_add_mul_ediv q.num (q.den : Int)
+        rw [hint.2] at this; omega
+      have hfl : (q.floor : ℚ) = v := by
+        rw [← hval, toRat, hdiv]; push_cast; field_simp
+      have : q.floor = (v : Int) := by exact_mod_cast hfl
+      rw [← h, this]; simp
+    · exfalso
+      by_cases hcc : q.isInt = true ∧ 0 ≤ q.floor ∧ q.floor < 2 ^ 32
+      · exact hc hcc
+      · simp only [hcc, if_false] at h; cases h
 end Fit.C05L
